@@ -40,6 +40,13 @@ def items(tier):
             sp = {"tasks": [{"name": "T0", "work": 3.0, "fixw": f0}, {"name": "T1", "work": 2.0, "fixw": f1}, {"name": "T2", "work": 1.0}],
                   "links": [], "teams": [{"name": "TM0", "targets": [0, 1, 2], "workers": ws}]}
             out.append((sp, {"rule": "TSLACK", "max_time": 14}))
+    # (c2) the fixed list names a skilled worker whose team is not assigned to the task
+    for f0 in (["W0", "W1"], ["W1"], ["W1", "W0"]):
+        for tg1 in ([1], [0, 1], []):
+            sp = {"tasks": [{"name": "T0", "work": 3.0, "fixw": f0}, {"name": "T1", "work": 2.0}], "links": [],
+                  "teams": [{"name": "TM0", "targets": [0, 1], "workers": [{"name": "W0", "skills": {"T0": 1.0, "T1": 1.0}, "cost": 1.0}]},
+                            {"name": "TM1", "targets": tg1, "workers": [{"name": "W1", "skills": {"T0": 1.0, "T1": 1.0}, "cost": 1.0}]}]}
+            out.append((sp, {"rule": "TSLACK", "max_time": 12}))
     # (d) facility side: facility skill / workplace targeting / worker facility-skill each in {missing, 0, 1}; fixed facility IDs; solo facilities
     tri = (None, 0.0, 1.0)
     for fsk, wfs in itertools.product(tri, repeat=2):
